@@ -825,7 +825,7 @@ func (prop) Describe() driver.Description {
 			"for .tar.xz the rejection-with-error clause is not asserted (GNU tar neutralises '..' and absolute names instead of failing); confinement is",
 			"the archive file itself, which the code leaves inside the destination, is tolerated as an extra file",
 		},
-		LiftInfo:   fetchrt.LiftInfo,
+		LiftInfo: fetchrt.LiftInfo,
 		// directory-modifying system calls and process creation do not scale
 		// across processes in this sandbox; four workers is the measured optimum
 		Workers:    4,
